@@ -207,6 +207,17 @@ package catalog
 //@       && c.Tags.data[TagName(name)].Name == TagName(name))
 //@   ensures catInv(c)
 
+// a description is added to the stored tag object itself: the tag keeps its identity, hence the interactions already
+// attached to it (C05: tag <-> interaction references stay closed)
+//@ func (*Catalog).AddDescriptionToTag(c, name, description)
+//@   property C03,C05
+//@   requires catInv(c)
+//@   modifies allfield(Tag, Description), c.Tags.data[:]
+//@   ensures[C05,@tag-object-kept] forall(q, TagName, has(c.Tags.data, q) == old(has(c.Tags.data, q)) && imp(has(c.Tags.data, q), c.Tags.data[q] == old(c.Tags.data[q])))
+//@   ensures[C03,@duplicate-tag-description] imp(old(has(c.Tags.data, TagName(name)) && c.Tags.data[TagName(name)].Description != nil), result != nil)
+//@   ensures[C03,@unknown-tag] imp(!old(has(c.Tags.data, TagName(name))), result != nil)
+//@   ensures[C03,C05] imp(result == nil, c.Tags.data[TagName(name)].Description != nil)
+
 //@ func (*Catalog).AddServer(c, name, annotation)
 //@   property C03,C05
 //@   requires catInv(c)
